@@ -182,15 +182,18 @@ def scan():
                     continue
                 units = [b for b in encl if b.kind in ("closure", "fn")]
                 if not units:
-                    if any(b.kind == "lazy_static" for b in encl) or not encl:
-                        # a static initialiser outside any function
-                        exempt_reason = None
-                        die(f"{fi.rel}:{line_of(fi.src, off)}: effect token {tok} outside any function")
-                    die(f"{fi.rel}:{line_of(fi.src, off)}: effect token {tok} outside any function")
+                    # a static initialiser outside any function: nothing can guard it
+                    key = (fi.rel, -1)
+                    st = sites.setdefault(key, {"file": fi.rel, "unit": None, "fi": fi, "fn": "<static>", "effects": []})
+                    st["effects"].append((off, kind, tok))
+                    continue
                 # innermost fn item
-                fn_idx = next(i for i, b in enumerate(units) if b.kind == "fn") if any(b.kind == "fn" for b in units) else None
+                fn_idx = next((i for i, b in enumerate(units) if b.kind == "fn"), None)
                 if fn_idx is None:
-                    die(f"{fi.rel}:{line_of(fi.src, off)}: closure outside any fn")
+                    key = (fi.rel, -1)
+                    st = sites.setdefault(key, {"file": fi.rel, "unit": None, "fi": fi, "fn": "<static>", "effects": []})
+                    st["effects"].append((off, kind, tok))
+                    continue
                 fnb = units[fn_idx]
                 cands = units[:fn_idx + 1]          # closures inside the fn, innermost first, then the fn body
                 chosen = None
@@ -219,6 +222,11 @@ def scan():
     for key in sorted(sites):
         s = sites[key]
         fi, u = s["fi"], s["unit"]
+        if u is None:
+            out_sites.append({"file": s["file"], "line": line_of(fi.src, s["effects"][0][0]), "fn": "<static>", "name": "",
+                              "closure": False, "steps": [("effect", k, t) for _, k, t in sorted(s["effects"])],
+                              "eff_lines": sorted({line_of(fi.src, o) for o, _, _ in s["effects"]})})
+            continue
         steps = []
         for m in CHECK_RE.finditer(fi.code, u.open, u.close):
             inner = enclosing(fi.blocks, m.start())[0]
